@@ -200,6 +200,21 @@ CLAIMED = {
         design='DESIGN.md §5 C11',
         note=NOTE_COMMON + 'id (hash_entry), weight (get_weight) and Position are Beancount functions: compared with a direct call, not modelled.',
         technique='Lean 4 proof (row structure, lookups, generated column table by decide) + per-column traversal correspondence'),
+    'C13': dict(
+        text=('Lean theorems over a model of BeanTable.prepare and the Beancount summarisation it calls (balance_by_account, '
+              'create_entries_from_balances, transfer_balances, summarize, truncate): prepare applies OPEN, CLOSE, CLEAR in that '
+              'order by definition; CLOSE returns a prefix with nothing dated on or after e (all of it on sorted ledgers); OPEN '
+              'returns balanced summarising entries dated d-1 followed by exactly the original transactions from the first dated '
+              '>= d, unchanged and in order; for OPEN d CLOSE e every non-income-statement account (except the equity accounts '
+              'that receive the differences) totals, lot by lot, to its balance as of e in the full ledger, every income-statement '
+              'account to its activity in [d, e), and to zero with CLEAR; every returned transaction is an unchanged original or '
+              'balances, for every subset of the clauses. Tied to the code by correspondence of the model prepare with the real '
+              'one on generated ledgers (lots at cost, reductions, pads) for every clause subset and boundary dates, and by the '
+              'same invariants checked through SELECT on ledgers with price conversions, filter independence, the compile-time '
+              'date-order check, the four statement kinds and the shell\'s default close date for named queries.'),
+        design='DESIGN.md §5 C13',
+        note=NOTE_COMMON + 'PARTIAL: beancount.ops.summarize is modelled, not verified; price conversions (Equity:Conversions entries) are outside the Lean model and covered by the implementation-level invariants only; non-transaction directives kept by summarize (open, price) are not modelled.',
+        technique='Lean 4 proof (period-report invariants over a summarisation model) + prepare() correspondence + SQL-level invariants'),
     'C14': dict(
         text=('Lean theorems: the ASTs produced by the live `transform_balances` / `transform_journal` for every summary function '
               '(none, units, cost), with and without an account pattern, are dumped on every run and proved EQUAL (`decide` over '
